@@ -7,6 +7,7 @@ import (
 	"fmt"
 	"log"
 	"strings"
+	"time"
 
 	zz "github.com/TheCacophonyProject/thermal-recorder/zzverif"
 
@@ -447,6 +448,13 @@ func runALogText(r *verifsim.Run) {
 		s := r.Draw(3)
 		sc.Plans[s].Add([]byte{'S', 'X', 'W'}[r.Draw(3)], r.Draw(10))
 	}
+	if r.Chance(1, 2) {
+		// the medium fails for a while: every write of a stretch of frames fails (one condition, recurring on every frame)
+		s, from := r.OneOf(zz.SinkMotion, zz.SinkMotion, zz.SinkCont), r.Draw(40)
+		for j, k := 0, r.Range(3, 25); j < k; j++ {
+			sc.Plans[s].Add('W', from+j)
+		}
+	}
 	for i := range sc.Ev {
 		if r.Chance(1, 30) {
 			sc.Ev[i].CreateOK = false // "Can't start recording file: <error text>"
@@ -461,7 +469,9 @@ func runALogText(r *verifsim.Run) {
 	log.SetOutput(&buf)
 	log.SetFlags(0)
 	defer func() { log.SetOutput(old) }()
+	began := time.Now()
 	w, tr := runScenario(sc, aOpts{SkipEv: -1})
+	took := time.Since(began)
 	log.SetOutput(old)
 	countFaults(r, w)
 	for i := range tr.Ev {
@@ -471,10 +481,20 @@ func runALogText(r *verifsim.Run) {
 		}
 	}
 	nErr := 0
+	prevMasked := ""
 	for _, line := range strings.Split(buf.String(), "\n") {
 		if line == "" {
 			continue
 		}
+		// the whole run takes milliseconds of the limiter's (real) clock, far less than its one-minute
+		// interval: a condition that recurs frame after frame shows up once, not once per frame with a
+		// number changing in the text
+		masked := maskDigits(line)
+		if took < 20*time.Second && strings.Contains(line, "injected sink fault") && masked == prevMasked {
+			r.Violate("C20", "C20.recurring", "varying-text", "one condition recurring on consecutive frames produced several log lines within an interval: %q follows a line that differs from it only in numbers", line)
+			return
+		}
+		prevMasked = masked
 		if strings.Contains(line, "%!") {
 			r.Violate("C20", "C20.print", "modified:format-applied-twice", "a message was not printed unmodified: the log holds %q (the error text is %q)", line, zz.ErrInjected.Error())
 			return
@@ -492,4 +512,19 @@ func runALogText(r *verifsim.Run) {
 		r.Probe("error-text-with-percent-signs-logged")
 	}
 	r.Count("log_lines_with_error_text", nErr)
+}
+
+func maskDigits(s string) string {
+	b := []byte(s)
+	out := b[:0:0]
+	for i := 0; i < len(b); i++ {
+		if b[i] >= '0' && b[i] <= '9' {
+			if len(out) == 0 || out[len(out)-1] != '#' {
+				out = append(out, '#')
+			}
+			continue
+		}
+		out = append(out, b[i])
+	}
+	return string(out)
 }
